@@ -93,6 +93,12 @@ func (in c16Input) yaml() string {
 	if in.Probes == "http" || in.Probes == "both" {
 		fmt.Fprintf(&b, "    liveness_probe:\n      http_get:\n        host: %q\n        path: %q\n        port: %q\n", in.tpl("host"), "/"+in.tpl("path"), in.port())
 	}
+	if in.Probes == "dual" {
+		// one probe that carries an exec and an http_get section (the loader accepts it; it is also what an override
+		// file that replaces one kind of check by the other leaves behind). The exec section is the one that is
+		// used at run time and the one that is rendered; the http section is dead configuration and not judged
+		fmt.Fprintf(&b, "    liveness_probe:\n      exec:\n        command: %q\n      http_get:\n        host: %q\n        path: %q\n        port: %q\n", in.tpl("chk"), in.tpl("host"), "/"+in.tpl("path"), in.port())
+	}
 	b.WriteString("  k:\n    command: \"keeps\"\n    namespace: ns1\n    launch_timeout_seconds: 1\n    replicas: 1\n")
 	b.WriteString("  x:\n    command: \"plain\"\n  y:\n    command: \"other {{.PC_REPLICA_NUM}}\"\n    replicas: 2\n")
 	if in.GlobalVar {
@@ -181,7 +187,10 @@ func c16E2(tier string, o *E2Out) {
 	for _, r := range reps {
 		for _, g := range []bool{false, true} {
 			for _, l := range []bool{false, true} {
-				for _, pr := range []string{"none", "exec", "http", "both"} {
+				for _, pr := range []string{"none", "exec", "http", "both", "dual"} {
+					if pr == "dual" && (r > 3 || (g && l)) {
+						continue
+					}
 					idx++
 					if !o.mine(idx) {
 						continue
@@ -328,6 +337,13 @@ func c16One(o *E2Out, dir string, in c16Input, full bool) {
 					if pc.ReadinessProbe.PeriodSeconds != 2 {
 						o.violation("C16", "default:probe-period", fmt.Sprintf("configured period 2 became %d", pc.ReadinessProbe.PeriodSeconds), in)
 					}
+				}
+			}
+			if in.Probes == "dual" {
+				if pc.LivenessProbe == nil || pc.LivenessProbe.Exec == nil {
+					o.violation("C16", "rendered:probe-missing", "exec section of the liveness probe lost", in)
+				} else {
+					chk("probe.exec.command", pc.LivenessProbe.Exec.Command, in.tpl("chk"))
 				}
 			}
 			if in.Probes == "http" || in.Probes == "both" {
